@@ -39,6 +39,14 @@ def scenario(cls, kw, other=None):
             out.append('EXC:' + type(ex).__name__ + ':' + str(ex)[:160])
     except Exception as ex:
         out.append('CTOR:' + type(ex).__name__ + ':' + str(ex)[:160])
+    # a tree of three levels of its own, serialised: indentation and all is part of what the thread obtains
+    try:
+        pi = XE.XMLPitch(); pi.add_child(XE.XMLStep('C')); pi.add_child(XE.XMLOctave(4))
+        nt = XE.XMLNote(); nt.add_child(pi); nt.add_child(XE.XMLDuration(1))
+        out.append('NEST:' + nt.to_string())
+        out.append('NEST:' + pi.to_string())
+    except Exception as ex:
+        out.append('NEST:EXC:' + type(ex).__name__ + ':' + str(ex)[:160])
     # what the OTHER thread's scenario supplies, offered to this thread's class: the other thread's text value and the other thread's attribute
     # values are valid for ITS types and mostly invalid here - whether they are refused must not depend on which thread filled which table first
     if other:
